@@ -80,3 +80,194 @@ theorem shadeGen_mirror (r : Rounding) (box : Box) (parents : List Ind) (arch : 
         rw [C13.deSelect_mirror, replaced_neg]
 
 end EngineMirror
+
+/-! ## SEA family: one pass of the variational pipeline mirrors too -/
+namespace EngineMirror
+open Engine Repair F64 Select EngineDE
+
+def negSeaDraws (dr : SeaDraws) : SeaDraws := { dr with values := dr.values.map Fit.neg }
+def negSeaGen (g : SeaGen) : SeaGen :=
+  { offspring := g.offspring.map negInd, requests := g.requests.map (fun q => (q.1, q.2.neg)) }
+def negRow (r : Row) : Row := (r.1, r.2.map Fit.neg)
+
+theorem firstBest_mirror : ∀ l : List Ind, firstBest false (l.map negInd) = (firstBest true l).map negInd
+  | [] => rfl
+  | a :: l => by
+    simp only [List.map_cons, firstBest, firstBest_mirror l]
+    cases firstBest true l with
+    | none => rfl
+    | some b =>
+      simp only [Option.map_some]
+      rw [← C13.better_mirror]
+      split <;> rfl
+
+theorem seqOpt_map {α β : Type} (f : α → β) : ∀ l : List (Option α), seqOpt (l.map (Option.map f)) = (seqOpt l).map (List.map f)
+  | [] => rfl
+  | none :: _ => rfl
+  | some a :: l => by
+    simp only [List.map_cons, Option.map_some, seqOpt, seqOpt_map f l]
+    cases seqOpt l <;> rfl
+
+theorem tournament_mirror (pop : List Ind) (idx : List (List Nat)) :
+    tournament false (pop.map negInd) idx = (tournament true pop idx).map (List.map negInd) := by
+  unfold tournament
+  rw [← seqOpt_map]
+  congr 1
+  simp only [List.map_map]
+  apply List.map_congr_left
+  intro cs _
+  simp only [Function.comp, List.getElem?_map]
+  have : (cs.map fun c => Option.map negInd pop[c]?) = (cs.map fun c => pop[c]?).map (Option.map negInd) := by
+    simp [List.map_map, Function.comp_def]
+  rw [this, seqOpt_map]
+  cases seqOpt (cs.map fun c => pop[c]?) with
+  | none => rfl
+  | some l => simp [firstBest_mirror]
+
+theorem updateRow_neg (old : Row) (g : Genome) : updateRow (negRow old) g = negRow (updateRow old g) := by
+  unfold updateRow negRow
+  split <;> simp_all
+
+theorem arithX_neg (r : Rounding) (prob : Rat) : ∀ (rows : List Row) (ds : List (Rat × Rat)),
+    arithX r prob (rows.map negRow) ds = (arithX r prob rows ds).map (List.map negRow)
+  | a :: b :: rest, (u, al) :: ds => by
+    simp only [List.map_cons, arithX]
+    have h1 : (negRow a).1 = a.1 := rfl
+    have h2 : (negRow b).1 = b.1 := rfl
+    rw [h1, h2]
+    split
+    · cases seqOpt ((a.1.zip b.1).map fun p => mixCoord r al p.1 p.2) with
+      | none => rfl
+      | some ga =>
+        cases seqOpt ((a.1.zip b.1).map fun p => mixCoord' r al p.1 p.2) with
+        | none => rfl
+        | some gb =>
+          simp only [Option.bind_some]
+          rw [arithX_neg r prob rest ds]
+          cases arithX r prob rest ds with
+          | none => rfl
+          | some t => simp [updateRow_neg]
+    · rw [arithX_neg r prob rest ds]
+      cases arithX r prob rest ds <;> simp
+  | [a], [] => by simp [arithX]
+  | [], [] => by simp [arithX]
+  | [], _ :: _ => by simp [arithX]
+  | [_], _ :: _ => by simp [arithX]
+  | _ :: _ :: _, [] => by simp [arithX]
+
+theorem gaussRow_neg (r : Rounding) (box : Box) (prob : Rat) (row : Row) (us noise : List Rat) :
+    gaussRow r box prob (negRow row) us noise = (gaussRow r box prob row us noise).map negRow := by
+  unfold gaussRow
+  have h1 : (negRow row).1 = row.1 := rfl
+  rw [h1]
+  cases seqOpt ((row.1.zip (us.zip noise)).map fun p => gaussCoord r prob p.1 p.2.1 p.2.2) with
+  | none => rfl
+  | some moved =>
+    simp only [Option.bind_some]
+    cases repairRow .toroidal r box moved with
+    | none => rfl
+    | some g => simp [updateRow_neg]
+
+theorem uniformRow_neg (prob : Rat) (row : Row) (us draws : List Rat) :
+    uniformRow prob (negRow row) us draws = negRow (uniformRow prob row us draws) := by
+  unfold uniformRow
+  have h1 : (negRow row).1 = row.1 := rfl
+  rw [h1, updateRow_neg]
+
+theorem evalRows_neg : ∀ (rows : List Row) (vs : List Fit),
+    evalRows (rows.map negRow) (vs.map Fit.neg) =
+      (evalRows rows vs).map fun q => (q.1.map negInd, q.2.map fun x => (x.1, x.2.neg))
+  | [], [] => by simp [evalRows]
+  | [], _ :: _ => by simp [evalRows]
+  | (g, some f) :: l, vs => by
+    have e : negRow (g, some f) = (g, some f.neg) := rfl
+    rw [List.map_cons, e]
+    simp only [evalRows]
+    rw [evalRows_neg l vs]
+    cases evalRows l vs <;> simp [negInd]
+  | (g, none) :: l, [] => by
+    have e : negRow (g, (none : Option Fit)) = (g, none) := rfl
+    rw [List.map_cons, e]
+    simp [evalRows]
+  | (g, none) :: l, v :: vs => by
+    have e : negRow (g, (none : Option Fit)) = (g, none) := rfl
+    rw [List.map_cons, e, List.map_cons]
+    simp only [evalRows]
+    rw [evalRows_neg l vs]
+    cases evalRows l vs <;> simp [negInd]
+
+theorem zip3With_map_left {α β γ δ ε : Type} (f : α → β → γ → δ) (g : ε → α) (a : List ε) (b : List β) (c : List γ) :
+    zip3With f (a.map g) b c = zip3With (fun x y z => f (g x) y z) a b c := by
+  simp only [zip3With, List.zip_map_left, List.map_map]
+  rfl
+
+theorem zip3With_map_out {α β γ δ ε : Type} (f : α → β → γ → δ) (g : δ → ε) (a : List α) (b : List β) (c : List γ) :
+    (zip3With f a b c).map g = zip3With (fun x y z => g (f x y z)) a b c := by
+  simp only [zip3With, List.map_map]
+  rfl
+
+theorem pipeline_mirror (X M : List Row → Option (List Row)) (rows : List Row) (vs : List Fit)
+    (hX : X (rows.map negRow) = (X rows).map (List.map negRow))
+    (hM : ∀ c, M (c.map negRow) = (M c).map (List.map negRow)) :
+    ((X (rows.map negRow)).bind fun c => (M c).bind fun m =>
+        (evalRows m (vs.map Fit.neg)).map fun (q : List Ind × List (Genome × Fit)) => ({ offspring := q.1, requests := q.2 } : SeaGen)) =
+    ((X rows).bind fun c => (M c).bind fun m =>
+        (evalRows m vs).map fun (q : List Ind × List (Genome × Fit)) => ({ offspring := q.1, requests := q.2 } : SeaGen)).map negSeaGen := by
+  rw [hX]
+  cases X rows with
+  | none => rfl
+  | some c =>
+    simp only [Option.map_some, Option.bind_some]
+    rw [hM c]
+    cases M c with
+    | none => rfl
+    | some m =>
+      simp only [Option.map_some, Option.bind_some]
+      rw [evalRows_neg]
+      cases evalRows m vs <;> simp [negSeaGen]
+
+theorem gaussStage_neg (r : Rounding) (box : Box) (pM : Rat) (mask noise : List (List Rat)) (c : List Row) :
+    seqOpt (zip3With (gaussRow r box pM) (c.map negRow) mask noise) =
+      (seqOpt (zip3With (gaussRow r box pM) c mask noise)).map (List.map negRow) := by
+  rw [← seqOpt_map, zip3With_map_left, zip3With_map_out]
+  simp only [gaussRow_neg]
+
+theorem uniformStage_neg (pM : Rat) (mask noise : List (List Rat)) (c : List Row) :
+    (some (zip3With (uniformRow pM) (c.map negRow) mask noise) : Option (List Row)) =
+      (some (zip3With (uniformRow pM) c mask noise)).map (List.map negRow) := by
+  rw [zip3With_map_left, Option.map_some, zip3With_map_out]
+  simp only [uniformRow_neg]
+
+/-- **C13, SEA family.**  One pass of the variational pipeline (tournament, crossover, mutation,
+evaluation) under `maximize = true` and the same pass on the mirrored population (fitness and
+objective values negated, `maximize = false`, same draws) are defined together and produce mirror
+images: same offspring genomes, same evaluation requests in the same order. -/
+theorem seaOffspring_mirror (r : Rounding) (pipe : Pipe) (box : Box) (pX pM : Rat) (parents : List Ind) (dr : SeaDraws) :
+    seaOffspring false r pipe box pX pM (parents.map negInd) (negSeaDraws dr) =
+      (seaOffspring true r pipe box pX pM parents dr).map negSeaGen := by
+  have hg : ((parents.map negInd).all fun p => p.genome.length == box.length) = (parents.all fun p => p.genome.length == box.length) := by
+    simp [List.all_map, Function.comp_def, negInd]
+  have hrows : ∀ sel : List Ind, ((sel.map negInd).map fun (i : Ind) => ((i.genome, some i.fit) : Row)) =
+      (sel.map fun (i : Ind) => ((i.genome, some i.fit) : Row)).map negRow := by
+    intro sel
+    simp [List.map_map, Function.comp_def, negRow, negInd]
+  cases pipe
+  all_goals
+    simp only [seaOffspring, negSeaDraws, List.length_map, hg]
+    split
+    · rfl
+    · rw [tournament_mirror]
+      cases tournament true parents dr.contestants with
+      | none => rfl
+      | some sel =>
+        simp only [Option.map_some, Option.bind_some]
+        rw [hrows sel]
+        first
+          | exact pipeline_mirror (fun rows => some rows) (fun c => seqOpt (zip3With (gaussRow r box pM) c dr.mask dr.noise)) _ dr.values
+              (by simp) (gaussStage_neg r box pM dr.mask dr.noise)
+          | exact pipeline_mirror (fun rows => arithX r pX rows dr.pairs) (fun c => seqOpt (zip3With (gaussRow r box pM) c dr.mask dr.noise)) _ dr.values
+              (arithX_neg r pX _ dr.pairs) (gaussStage_neg r box pM dr.mask dr.noise)
+          | exact pipeline_mirror (fun rows => arithX r pX rows dr.pairs) (fun c => some (zip3With (uniformRow pM) c dr.mask dr.noise)) _ dr.values
+              (arithX_neg r pX _ dr.pairs) (uniformStage_neg pM dr.mask dr.noise)
+
+end EngineMirror
